@@ -2,6 +2,7 @@
 pub mod containers;
 pub mod content;
 pub mod exec;
+pub mod pool;
 pub mod px;
 pub mod refmodel;
 pub mod rng;
